@@ -7,19 +7,19 @@ package namer
 // nothing else changes. Two results of one namer are therefore never equal (C01: no emitted identifier is
 // declared twice inside a method body / among the generated methods of one output file).
 
-//@ func New
+//@ func New()
 //@   props C01
 //@   ensures result != nil && isFresh(result) && result.lookup != nil
 //@   ensures forall k string :: has(result.lookup, k) == (k == "c")
 
-//@ func Namer.Register
+//@ func Namer.Register(m; name)
 //@   props C01 C13
 //@   requires@C13 m != nil && m.lookup != nil
 //@   assigns m.First, map(m.lookup)
 //@   ensures result == !old(has(m.lookup, name))
 //@   ensures forall k string :: has(m.lookup, k) == (old(has(m.lookup, k)) || k == name)
 
-//@ func Namer.Name
+//@ func Namer.Name(m; name)
 //@   props C01 C13
 //@   requires@C13 m != nil && m.lookup != nil
 //@   assigns m.First, map(m.lookup)
@@ -28,7 +28,7 @@ package namer
 //@   ensures result == name || (exists i int :: i >= 2 && result == name + fmt.Sprint(i))
 //@   loop 1 invariant i >= 1 && (forall k string :: has(m.lookup, k) == old(has(m.lookup, k)))
 
-//@ func Namer.Index
+//@ func Namer.Index(m; )
 //@   props C01 C13
 //@   requires@C13 m != nil && m.lookup != nil
 //@   assigns m.First, map(m.lookup)
@@ -37,7 +37,7 @@ package namer
 //@   loop 1 invariant i >= 1 && (forall k string :: has(m.lookup, k) == old(has(m.lookup, k)))
 //@   loop 2 invariant forall k string :: has(m.lookup, k) == old(has(m.lookup, k))
 
-//@ func Namer.Map
+//@ func Namer.Map(m; )
 //@   props C01 C13
 //@   requires@C13 m != nil && m.lookup != nil
 //@   assigns map(m.lookup)
